@@ -164,6 +164,238 @@ def check_adjust(lib, res):
     return (ln, ep, st)
 
 
+def _slice_model(t, args):
+    c = t["callee"]
+    if c == "variable::adjust_slice_endpoint" and len(args) == 3 and all(isinstance(a, Aff) for a in args):
+        return Aff.var(f"adj({args[0]!r},{args[1]!r},{args[2]!r})")
+    if c.endswith("::len") and len(args) == 1:
+        return Aff.var("alen")
+    if c == "core::num::<impl i32>::checked_add" and len(args) == 2 and all(isinstance(a, Aff) for a in args):
+        return ("optval", args[0] + args[1], "checked_add", args[0], args[1])
+    return None
+
+
+class _LenWalker(SymWalker):
+    """`array.len() as i32` is the variable `len`; `x as usize` of an affine x is an index; Some(x) keeps x."""
+
+    def rv_val(self, env, rv, blk):
+        if rv["k"] == "agg" and rv.get("adt") == "std::option::Option" and rv.get("variant") == "Some" and len(rv["ops"]) == 1:
+            return ("some", self.op_val(env, rv["ops"][0]))
+        v = SymWalker.rv_val(self, env, rv, blk)
+        if isinstance(v, tuple) and v and v[0] == "cast" and v[1] == Aff.var("alen") and v[3] == "i32":
+            return Aff.var("len")
+        if isinstance(v, tuple) and v and v[0] == "cast" and isinstance(v[1], Aff) and v[3] == "usize":
+            return ("idx", v[1])
+        return v
+
+
+def _grid_compare(res, b, paths, names, bounds_of, what):
+    """Compare (first index, bound, comparison) chosen by the routine with the reference on a grid hitting every cell of the
+    hyperplane arrangement.  bounds_of(path, step sign) -> (Aff first, Aff bound, 'Lt' | 'Gt') or None."""
+    arr, st_n, sp_n, step = names
+    npoints = 0
+    mismatch = []
+    amb = []
+    for L in (1, 2, 3, 6):
+        opts = [None] + list(range(-2 * L - 2, 2 * L + 3))
+        for sgn in (-2, -1, 1, 2):
+            for st in opts:
+                for sp in opts:
+                    env = {"len": L, step: sgn, ("some", st_n): st is not None, ("some", sp_n): sp is not None,
+                           st_n: st if st is not None else 0, sp_n: sp if sp is not None else 0}
+                    env[f"adj(len,{st_n},{step})"] = ref_adjust(L, env[st_n], sgn)
+                    env[f"adj(len,{sp_n},{step})"] = ref_adjust(L, env[sp_n], sgn)
+                    hit = [p for p in paths if holds(p.conds, env)]
+                    npoints += 1
+                    if len(hit) != 1:
+                        amb.append((L, st, sp, sgn, len(hit)))
+                        continue
+                    bo = bounds_of(hit[0], sgn)
+                    if bo is None:
+                        mismatch.append((L, st, sp, sgn, "no stepping rule for this direction"))
+                        continue
+                    try:
+                        a = bo[0].eval(env)
+                        bb_ = bo[1].eval(env)
+                    except Exception as e:  # unknown variable
+                        mismatch.append((L, st, sp, sgn, f"unevaluable: {e}"))
+                        continue
+                    ra, rb = ref_bounds(L, st, sp, sgn)
+                    want_op = "Lt" if sgn > 0 else "Gt"
+                    if (a, bb_, bo[2]) != (ra, rb, want_op):
+                        mismatch.append((L, st, sp, sgn, (a, bb_, bo[2]), (ra, rb, want_op)))
+    res.add("slice:deterministic", not amb, f"exactly one prefix path per input ({npoints} grid points)" + (f" — {amb[:3]}" if amb else ""), b.span)
+    res.add("slice:tree-equivalence", not mismatch and not amb,
+            f"start/stop defaulting, clamping and {what} equal the reference on all {npoints} grid points (every ordering of start/stop vs 0, ±len, omitted/present, both step signs)"
+            + (f" — first mismatches (len,start,stop,step,got,want): {mismatch[:3]}" if mismatch else ""), b.span)
+    res.facts["slice_grid_points"] = npoints
+    res.facts["slice_prefix_paths"] = len(paths)
+
+
+def check_slice_pipeline(lib, res, b, o):
+    """The lazily generated form:
+        successors(Some(a), |&i| i.checked_add(step)).take_while(|&i| if step > 0 { i < b } else { i > b })
+            .map(|i| array[i as usize].clone()).collect()
+    successors yields a, then f(previous) until f answers None; take_while stops at the first index failing the guard; map
+    clones that element; collect keeps the order: the same index sequence as the stepping loop."""
+    calls = {}
+    for bb, t in b.calls():
+        calls.setdefault(t["callee"], []).append((bb, t))
+    need = ["std::iter::successors", "std::iter::Iterator::take_while", "std::iter::Iterator::map", "std::iter::Iterator::collect"]
+    shape = all(len(calls.get(n, [])) == 1 for n in need)
+    res.add("slice:pipeline-shape", shape, "one successors, one take_while, one map, one collect", b.span)
+    if not shape:
+        return
+    su, tw, mp, co = (calls[n][0][1] for n in need)
+    # chained: take_while(successors(..)), map(take_while(..)), collect(map(..)) is what is returned
+    chain = o.of_operand(tw["args"][0]) and all(x[0] == "call" and x[1] == need[0] for x in o.of_operand(tw["args"][0])) and \
+        all(x[0] == "adapt" and x[1] == "take_while" for x in o.of_operand(mp["args"][0])) and \
+        all(x[0] == "call" and x[1] == need[2] for x in o.of_operand(co["args"][0])) and \
+        all(x[0] == "call" and x[1] in (need[3], "std::vec::Vec::<T>::new") for x in o.of_local(0))
+    res.add("slice:pipeline-chain", bool(chain), "the stages are chained in that order and the collected vector is the result", b.span)
+    w = _LenWalker(b, call_model=_slice_model)
+    names = [w.names.get(i) for i in (1, 2, 3, 4)]
+    arr, st_n, sp_n, step = names
+    res.add("slice:params", None not in names, f"slice(array, start, stop, step) parameters: {names}", b.span)
+    try:
+        paths = w.run(stop_at_loops=True)
+    except RuntimeError as e:
+        res.add("slice:paths", False, f"path enumeration failed: {e}", b.span)
+        return
+    LEN0 = Cmp("Eq", Aff.var("len"), Aff.k(0)).key()
+    early = [p for p in paths if any(isinstance(a, Cmp) and a.key() == LEN0 and t for a, t in p.conds)]
+    full = [p for p in paths if p not in early]
+    res.add("slice:prefix-paths", bool(early) and bool(full) and all(p.leaf[0] == "return" for p in paths),
+            f"prefix paths: {len(early)} early return, {len(full)} reaching the pipeline", b.span)
+    res.add("slice:empty-array", all(su_blk not in p.blocks for p in early for su_blk in [calls[need[0]][0][0]]),
+            "an empty array returns before any endpoint arithmetic", b.span)
+    for p in full:
+        if not any(isinstance(a, Cmp) and a.key() == LEN0 and not t for a, t in p.conds):
+            res.add("slice:len-guard", False, "a path reaches the pipeline without passing the len == 0 guard", b.span)
+
+    def closure_of(op):
+        cl = [x for x in o.of_operand(op) if x[0] == "closure"]
+        return (cl[0], lib.fn(cl[0][1])) if len(cl) == 1 else (None, None)
+
+    def cap_vals(p, op):
+        """Symbolic values of the closure's captures on prefix path p."""
+        v = p.env.get(op["l"]) if op.get("k") in ("copy", "move") and not op.get("p") else None
+        return v[1] if isinstance(v, tuple) and v and v[0] == "tuple" else None
+
+    # ---- successors: first = Some(a), next = i.checked_add(step)
+    c1t, c1 = closure_of(su["args"][1])
+    ok1 = c1 is not None
+    if ok1:
+        r = Origins(c1, lib).of_local(0)
+        ok1 = bool(r) and all(x[0] == "call" and x[1] == "core::num::<impl i32>::checked_add" and set(x[2][0]) == {("param", 2)} and
+                              all(y[0] == "field" and y[1] == ("closure_env",) for y in x[2][1]) and len(x[2][1]) == 1 for x in r)
+        ok1 = ok1 and not any(bl["term"]["k"] == "assert" for i_, bl in enumerate(c1.blocks) if i_ in c1.reachable())
+    res.add("slice:pipeline:step", ok1, "the next index is i.checked_add(<captured>) and an unrepresentable one ends the sequence (None)", b.span)
+    # ---- take_while: if step > 0 { i < b } else { i > b }
+    c2t, c2 = closure_of(tw["args"][1])
+    table = None
+    if c2 is not None:
+        ncap = len(c2t[2])
+        w2 = SymWalker(c2)
+        w2.init_env = lambda: {1: ("tuple", tuple(Aff.var(f"cap{k}") for k in range(ncap))), 2: Aff.var("i")}
+        try:
+            table = []
+            for p in w2.run(stop_at_loops=False):
+                v = p.leaf[1] if p.leaf[0] == "return" else None
+                table.append(([(a, t) for a, t in p.conds], v, list(p.obligations)))
+        except RuntimeError:
+            table = None
+    res.add("slice:pipeline:guard-shape", table is not None and all(isinstance(v, Cmp) and not ob for _, v, ob in table),
+            "the guard closure returns a comparison on every path and performs no checked arithmetic", b.span)
+    # ---- map: array[i as usize].clone()
+    c3t, c3 = closure_of(mp["args"][1])
+    ok3 = c3 is not None
+    if ok3:
+        r = Origins(c3, lib).of_local(0)
+        ok3 = bool(r) and all(x[0] == "elem" and x[1][0] == "field" and x[1][1] == ("closure_env",) and len(x) == 3 and
+                              x[2][0] == "ix" and len(x[2][1]) == 1 and
+                              all(y[0] == "cast" and y[1] == ("param", 2) and y[2] == "usize" for y in x[2][1]) for x in r)
+        asserts = [bl["term"] for i_, bl in enumerate(c3.blocks) if i_ in c3.reachable() and bl["term"]["k"] == "assert"]
+        ok3 = ok3 and len(asserts) == 1 and asserts[0]["msg"] == "BoundsCheck"
+        # the indexed sequence is the array parameter
+        capt = c3t[2]
+        ok3 = ok3 and len(capt) == 1 and set(capt[0]) == {("param", 1)}
+    res.add("slice:pipeline:element", ok3, "each index i contributes array[i as usize].clone(), exactly one element access", b.span)
+    if table is None or not all(isinstance(v, Cmp) for _, v, _ in table):
+        return
+
+    def bounds_of(p, sgn):
+        first = p.env.get(su["args"][0].get("l")) if su["args"][0].get("k") in ("copy", "move") else None
+        caps1 = cap_vals(p, su["args"][1])
+        caps2 = cap_vals(p, tw["args"][1])
+        if not (isinstance(first, tuple) and first and first[0] == "some" and isinstance(first[1], Aff)) or caps1 is None or caps2 is None:
+            return None
+        if list(caps1) != [Aff.var(step)]:
+            return None
+        env = {f"cap{k}": v for k, v in enumerate(caps2)}
+        # evaluate the guard's decision for this direction symbolically: substitute the captures
+        def sub(a):
+            out = Aff.k(a.const)
+            for v, c in a.terms.items():
+                x = env.get(v, Aff.var(v))
+                if not isinstance(x, Aff):
+                    return None
+                for _ in range(abs(c)):
+                    out = out + x if c > 0 else out - x
+            return out
+        hits = []
+        for conds, v, _ in table:
+            okp = True
+            for a, t in conds:
+                if not isinstance(a, Cmp):
+                    okp = False
+                    break
+                sa, sb_ = sub(a.a), sub(a.b)
+                if sa is None or sb_ is None:
+                    okp = False
+                    break
+                # conditions of the guard may only test the step's sign
+                if sa == Aff.var(step) and sb_ == Aff.k(0):
+                    val = {"Gt": sgn > 0, "Ge": sgn >= 0, "Lt": sgn < 0, "Le": sgn <= 0, "Eq": sgn == 0, "Ne": sgn != 0}[a.op]
+                elif sa == Aff.k(0) and sb_ == Aff.var(step):
+                    val = {"Gt": 0 > sgn, "Ge": 0 >= sgn, "Lt": 0 < sgn, "Le": 0 <= sgn, "Eq": sgn == 0, "Ne": sgn != 0}[a.op]
+                else:
+                    return None
+                if val != t:
+                    okp = False
+                    break
+            if okp:
+                hits.append(v)
+        if len(hits) != 1:
+            return None
+        g = hits[0]
+        ga, gb = sub(g.a), sub(g.b)
+        if ga is None or gb is None:
+            return None
+        op = g.op
+        if gb == Aff.var("i"):
+            ga, gb = gb, ga
+            op = {"Lt": "Gt", "Gt": "Lt", "Le": "Ge", "Ge": "Le"}.get(op, op)
+        if ga != Aff.var("i") or op not in ("Lt", "Gt"):
+            return None
+        return first[1], gb, op
+
+    _grid_compare(res, b, full, names, bounds_of, "the guard of the index sequence")
+    # overflow obligations of the prefix (len - 1)
+    for p in full:
+        rr = refine({"len": (0, I32_MAX), step: (I32_MIN, I32_MAX)}, p.conds)
+        for kind, ops, blk in p.obligations:
+            if kind.startswith("Overflow(") and all(isinstance(x, Aff) for x in ops):
+                e = ops[0] + ops[1] if "Add" in kind else ops[0] - ops[1]
+                iv_ = interval(e, rr)
+                okr = iv_ is not None and I32_MIN <= iv_[0] and iv_[1] <= I32_MAX
+                res.add(f"slice:in-range:{kind}({ops[0]!r},{ops[1]!r})", okr, f"slice: {kind}({ops[0]!r}, {ops[1]!r}) cannot overflow (result in {iv_})", b.span)
+            else:
+                res.add(f"slice:in-range:{kind}", False, f"slice: unexpected checked operation {kind} before the pipeline", b.span)
+    adj = [(bb, t) for bb, t in b.calls() if t["callee"] == "variable::adjust_slice_endpoint"]
+    res.add("slice:adjust-calls", len(adj) == 2, f"slice adjusts start and stop with adjust_slice_endpoint (calls: {len(adj)})", b.span)
+
+
 def check_slice(lib, res):
     b = lib.fn("variable::slice")
     if b is None:
@@ -171,6 +403,9 @@ def check_slice(lib, res):
         return
     o = Origins(b, lib)
     loops = cfg_cycles(b)
+    if len(loops) == 0 and any(t["callee"] == "std::iter::successors" for _, t in b.calls()):
+        res.add("slice:two-loops", True, "variable::slice generates its index sequence lazily (successors / take_while) instead of a stepping loop", b.span)
+        return check_slice_pipeline(lib, res, b, o)
     res.add("slice:two-loops", len(loops) in (1, 2), f"variable::slice has one stepping loop per direction, or one loop serving both (found {len(loops)})", b.span)
     if len(loops) not in (1, 2):
         return
